@@ -3,7 +3,6 @@ package commitgraph
 import (
 	"crypto"
 	"io"
-	"math"
 
 	"github.com/go-git/go-git/v6/plumbing"
 	"github.com/go-git/go-git/v6/plumbing/hash"
@@ -103,7 +102,7 @@ func (e *Encoder) prepare(idx Index, hashes []plumbing.Hash) (hashToIndex map[pl
 		if len(v.ParentHashes) > 2 {
 			extraEdgesCount += uint32(len(v.ParentHashes) - 1)
 		}
-		if hasGenerationV2 && v.GenerationV2Data() > math.MaxUint32 {
+		if hasGenerationV2 && v.GenerationV2Data() >= generationV2OverflowMin {
 			generationV2OverflowCount++
 		}
 	}
@@ -220,10 +219,15 @@ func (e *Encoder) encodeExtraEdges(extraEdges []uint32) (err error) {
 	return err
 }
 
+// generationV2OverflowMin is the smallest corrected-date offset that does not
+// fit the 31 bits of a GDA2 slot and goes to the GDO2 chunk instead. The pass
+// that sizes the chunks and the pass that writes them must agree on it.
+const generationV2OverflowMin = 0x80000000
+
 func (e *Encoder) encodeGenerationV2Data(generationV2Data []uint64) (overflows []uint64, err error) {
 	head := 0
 	for _, data := range generationV2Data {
-		if data >= 0x80000000 {
+		if data >= generationV2OverflowMin {
 			// overflow
 			if err = binary.WriteUint32(e, uint32(head)|0x80000000); err != nil {
 				return nil, err
